@@ -147,7 +147,14 @@ LINE_UNITS = [".. toc::\n", "```{toc}\n```\n", "[^1]: n\n", "*[A]: t\n", "[x]: u
 MIDS = ["", "x", "\n", "\n# ", " ", "\n\n"]
 
 
+LINE_PREFIXES = ["", "> x\n", "- a\n", "- - - a\n      ~~~\n      x\n      ~~~\n      a\n", "- - a\n    > q\n", "a | b\n-|-\n", "term\n", "> - a\n", "1. a\n\n   b\n"]
+LINE_RUNS = [">\n", "> a\n", "b\n", "> a\nb\n", "- a\n", "  b\n", "\n", "> \n", ">   \n", "| a |\n", "a | b\n", ": d\n", "    c\n", "# h\n", "***\n", "[x]: u\n", "- a\nb\n", ">\n\n", "  \n", "", ""]
+
+
 def build3(f, n):
+    if f[0].startswith("\x00"):
+        # a fixed prefix, then two runs of whole lines growing together
+        return f[0][1:] + f[1] * n + f[2] * n
     a, b, c = f
     if b in MIDS:
         return a * n + b + c * n          # two-sided pump around a fixed middle
@@ -236,6 +243,10 @@ def count_oracle(ctx, quick):
     # two different runs one after the other (n unclosed openers, then a run the search for their closers has to cross)
     two = PAYLOADS + ["\\\\", "**a ", "_a", "__a ", "~a ", "^a ", "==a ", "*", "\\*", "\\_", "|", "-", "a|", "$a ", ">!a "]
     tfams += [(p1, p2, "") for p1 in two for p2 in two if p1 != p2 and p2 not in MIDS]
+    # whole lines: a fixed block-structure prefix (nested lists with a closed fence, a quote, a table head ...) followed by two runs of lines (empty quoted lines then
+    # quoted / lazy pairs, lazy continuation lines after a nested item, ...)
+    lfams = [("\x00" + pre, l1, l2) for pre in LINE_PREFIXES for l1 in LINE_RUNS for l2 in LINE_RUNS if l1 and l1 != l2]
+    tfams += lfams if not quick else ctx.rng.sample(lfams, 500)
     tsizes = [100, 200, 400]
     ttasks = [(cfg, build3(f, n), 25.0) for f in tfams for n in tsizes]
     tres = worker.run_all(ttasks, workers=14)
